@@ -1,4 +1,8 @@
 import Qryn.Proofs.Segs
+import Qryn.Proofs.Ident
+import Qryn.Proofs.Closed
+import Qryn.Gen.Params
+import Qryn.Proofs.PlanClosed
 /-! # C10 — request strings can never change the structure of SQL sent to ClickHouse
 
 Property theorems only. Model: `Qryn.Sql.quote` (= `StringVal.String`, table regenerated from
@@ -56,6 +60,106 @@ theorem template_condition_independent (segs : List Seg) :
 theorem escape_homomorphic (a b : Bytes) : escapeBody (a ++ b) = escapeBody a ++ escapeBody b :=
   escapeWith_append _ _ _
 
+
+/-! ## Identifiers admitted by the query-language lexers (`Gen.Lexers`, regenerated from the lexer rule tables) -/
+
+/-- **ident_safe.** The byte classes of the label-name rules — LogQL `Label_name` and `Macros_function`
+    (the two tokens `LabelName` accepts), the profile-selector `Label_name`, TraceQL `Label_name` — decided
+    over the classes extracted from the rule sources: a LogQL / profile label name consists of bareword bytes
+    only and contains no quote, backslash, backtick, bracket, brace, blank, `-`, `/`, `*`, `;`, `,`, `#`;
+    a TraceQL attribute name may in addition contain `-` (and `.`), and still no quote or backslash. -/
+theorem ident_safe :
+    (∀ c : UInt8, inRanges Gen.logqlLabelName c = true → sqlMeta c = false ∧ isWordByte c = true) ∧
+    (∀ c : UInt8, inRanges Gen.logqlMacrosFunction c = true → sqlMeta c = false ∧ isWordByte c = true) ∧
+    (∀ c : UInt8, inRanges Gen.profLabelName c = true → sqlMeta c = false ∧ isWordByte c = true) ∧
+    (∀ c : UInt8, inRanges Gen.traceqlLabelName c = true → (sqlMeta c = false ∨ c = 45) ∧ litSafe c = true) := by
+  refine ⟨?_, ?_, ?_, ?_⟩ <;> (apply forall_byte_of_lt; decide +kernel)
+
+/-- the TraceQL class really contains `-`: such a name must never be embedded as a bare word (`--` opens a
+    comment); the planners put it into `StringVal`s only (stream `leaves`) -/
+theorem traceql_ident_has_minus : inRanges Gen.traceqlLabelName 45 = true := by decide +kernel
+
+/-- **ident_literal** (the lift): for every byte string free of quote and backslash — in particular every
+    string over any of the four classes — embedding it as `'…'` WITHOUT escaping is one literal that decodes
+    to itself. -/
+theorem ident_literal (s : Bytes) (h : ∀ c ∈ s, litSafe c = true) : lex (39 :: s ++ [39]) = [Tok.str s] :=
+  lex_rawQuoted s h
+
+theorem logql_label_literal (s : Bytes)
+    (h : ∀ c ∈ s, inRanges Gen.logqlLabelName c = true ∨ inRanges Gen.logqlMacrosFunction c = true) :
+    lex (39 :: s ++ [39]) = [Tok.str s] :=
+  ident_literal s (fun c hc => by
+    rcases h c hc with h1 | h1
+    · exact litSafe_of_not_meta c (ident_safe.1 c h1).1
+    · exact litSafe_of_not_meta c (ident_safe.2.1 c h1).1)
+
+theorem prof_label_literal (s : Bytes) (h : ∀ c ∈ s, inRanges Gen.profLabelName c = true) :
+    lex (39 :: s ++ [39]) = [Tok.str s] :=
+  ident_literal s (fun c hc => litSafe_of_not_meta c (ident_safe.2.2.1 c (h c hc)).1)
+
+theorem traceql_label_literal (s : Bytes) (h : ∀ c ∈ s, inRanges Gen.traceqlLabelName c = true) :
+    lex (39 :: s ++ [39]) = [Tok.str s] :=
+  ident_literal s (fun c hc => (ident_safe.2.2.2 c (h c hc)).2)
+
+/-- a non-empty LogQL / profile label name written into SQL as it is (column of a map, alias) is exactly one
+    bareword token -/
+theorem logql_label_word (c : UInt8) (s : Bytes)
+    (h : ∀ d ∈ c :: s, inRanges Gen.logqlLabelName d = true ∨ inRanges Gen.logqlMacrosFunction d = true) :
+    lex (c :: s) = [Tok.word (c :: s)] :=
+  lex_word c s (fun d hd => by
+    rcases h d hd with h1 | h1
+    · exact (ident_safe.1 d h1).2
+    · exact (ident_safe.2.1 d h1).2)
+
+/-! ## The statements the planner models render -/
+
+/-- the rendering of a `sql_select` tree is the concatenation of raw planner text and escaped string leaves
+    (`StringVal`, the pattern of `sqlMatch`): `render = concat segments`, for every tree -/
+theorem render_is_segments (s : Sel) : renderSegs (segsSel s) = renderSel s := render_segsSel s
+
+/-- **closed_fragments_partial.** Every tree whose raw atoms are well formed (`wfSel`: a computable condition
+    on keywords, names, aliases, numbers and identifier-restricted `'name'` literals ONLY — it does not look
+    into any string leaf) renders to a template that is well formed for its string leaves, from every lexer
+    state in which a statement or clause can start. Proved for the WHOLE model AST (select, WITH list, joins,
+    set operations, every expression node), by mutual induction over `render…`; the keyword fragments the
+    renderer writes are checked by evaluation. -/
+theorem closed_fragments_partial (s : Sel) (h : wfSel s = true) : safeSegs .normal (segsSel s) = true :=
+  ((closedSel s h) .normal rfl).1
+
+/-- … and so does every expression on its own -/
+theorem closed_fragments_expr_partial (e : Expr) (h : wfExpr e = true) (q : St) (hq : q.ground = true) :
+    safeSegs q (segsExpr e) = true :=
+  ((closedExpr e h) q hq).1
+
+/-- structure invariance for model trees: under `wfSel`, the token-kind sequence of the rendered statement
+    does not depend on what the string leaves contain -/
+theorem render_structure_invariant_sel (s : Sel) (h : wfSel s = true) :
+    kinds (renderSel s) = kinds (renderSegs ((segsSel s).map Seg.shape)) := by
+  rw [← render_is_segments]
+  exact render_structure_invariant _ (closed_fragments_partial s h)
+
+/-- **closed_fragments_planLog_partial.** The LogQL planner model: for every context and every query of the
+    modelled fragment the rendered template is well formed for its string leaves — matcher values, regular
+    expressions, line-filter needles and label-filter values may be ANY byte strings. Hypotheses (`AtomsOK`,
+    `QueryOK`) concern only atoms that are not request strings: the four table names are closed text, the label
+    names of label filters are free of quote and backslash (guaranteed by the lexer: `ident_safe`), and the
+    numbers the planner prints (time bounds, limit, type, bit-set constants, `subsel_<k>`, `%f` literals) render
+    as closed text. The last group is what makes this `_partial`: a lemma "`toString n` consists of digits"
+    would discharge it for all numbers; here it is discharged by evaluation for concrete plans (examples). -/
+theorem closed_fragments_planLog_partial (c : LogQL.Ctx) (q : LogQL.LogQuery)
+    (ha : LogQL.AtomsOK c q) (hq : LogQL.QueryOK q) :
+    safeSegs .normal (segsSel (LogQL.planLog c q)) = true :=
+  closed_fragments_partial _ (LogQL.wf_planLog c q ha hq)
+
+/-- … so the token structure of a planned LogQL statement does not depend on the request strings in it -/
+theorem planLog_structure_invariant (c : LogQL.Ctx) (q : LogQL.LogQuery)
+    (ha : LogQL.AtomsOK c q) (hq : LogQL.QueryOK q) :
+    kinds (renderSel (LogQL.planLog c q)) = kinds (renderSegs ((segsSel (LogQL.planLog c q)).map Seg.shape)) :=
+  render_structure_invariant_sel _ (LogQL.wf_planLog c q ha hq)
+
+/-- the parameter inventory has no duplicate entry (a key identifies one taint obligation) -/
+theorem inventory_keys_distinct : Gen.params.Nodup := by decide +kernel
+
 -- non-vacuity: a hostile string in a two-leaf template
 -- `a = '…' AND b = '…'`
 example : safeSegs .normal [.raw [97, 32, 61, 32], .str [39, 59, 45, 45, 92],
@@ -64,5 +168,69 @@ example : lex (quote [39, 59, 45, 45, 92, 0]) = [Tok.str [39, 59, 45, 45, 92, 0]
 -- a template that is *not* well formed is rejected: leaf directly after a literal, or inside a comment
 example : safeSegs .normal [.raw [39, 97, 39], .str [98]] = false := by decide
 example : safeSegs .normal [.raw [45, 45, 32], .str [98]] = false := by decide
+
+-- non-vacuity of `closed_fragments_planLog_partial`: a whole LogQL plan with hostile matcher values, a regex, line
+-- filters and label filters, in single-node and cluster naming; every hypothesis is discharged by evaluation
+private def exCtx : LogQL.Ctx where
+  fromNs := 1700000000000000000
+  toNs := 1700003600000000000
+  limit := 100
+  orderAsc := false
+  tp := 1
+  isCluster := false
+  ginTable := "time_series_gin"
+  samplesTable := "samples_v3"
+  tsTable := "time_series"
+  tsDistTable := "time_series"
+private def exCtxCluster : LogQL.Ctx where
+  fromNs := 1700000000000000000
+  toNs := 1700003600000000000
+  limit := 0
+  orderAsc := true
+  tp := 0
+  isCluster := true
+  ginTable := "`qryn`.time_series_gin"
+  samplesTable := "`qryn`.samples_v3_dist"
+  tsTable := "`qryn`.time_series"
+  tsDistTable := "`qryn`.time_series_dist"
+private def exQuery : LogQL.LogQuery := {
+  matchers := [⟨[97], .eq, [39, 59, 45, 45, 92]⟩, ⟨[98], .nre, [0, 39, 39, 47, 42]⟩],
+  stages := [.line ⟨.contains, [37, 39, 95, 92], none⟩, .label (.or (.str "lbl" .neq [39]) (.num "x_1" .ge ⟨5, [5]⟩)),
+             .line ⟨.nre, [92, 39], some ⟨[39], true⟩⟩, .label (.str "a" .re [42, 47])] }
+
+private theorem exShifts : LogQL.shiftsOK 0 exQuery.matchers.length := fun j _ h => by
+  have : j = 0 ∨ j = 1 := by simp [exQuery] at h; omega
+  rcases this with rfl | rfl <;> decide +kernel
+private theorem exAtoms : LogQL.AtomsOK exCtx exQuery :=
+  ⟨by decide +kernel, by decide +kernel, by decide +kernel, by decide +kernel, by decide +kernel, by decide +kernel,
+   by decide +kernel, by decide +kernel, by decide +kernel, exShifts⟩
+private theorem exAtomsCluster : LogQL.AtomsOK exCtxCluster exQuery :=
+  ⟨by decide +kernel, by decide +kernel, by decide +kernel, by decide +kernel, by decide +kernel, by decide +kernel,
+   by decide +kernel, by decide +kernel, by decide +kernel, exShifts⟩
+private theorem exQueryOK : LogQL.QueryOK exQuery where
+  conds := by
+    intro lc h
+    simp [LogQL.labelConds, exQuery] at h
+    rcases h with rfl | rfl
+    · refine ⟨?_, ?_, ?_⟩
+      · show (b "lbl").all litSafe = true
+        decide +kernel
+      · show (b "x_1").all litSafe = true
+        decide +kernel
+      · show rawE (b (LogQL.numText ⟨5, [5]⟩)) = true
+        decide +kernel
+    · show (b "a").all litSafe = true
+      decide +kernel
+  subs := fun j h1 h2 => by
+    have : j = 1 ∨ j = 2 := by simp [LogQL.labelConds, exQuery] at h2; omega
+    rcases this with rfl | rfl <;> exact ⟨by decide +kernel, by decide +kernel⟩
+example : safeSegs .normal (segsSel (LogQL.planLog exCtx exQuery)) = true :=
+  closed_fragments_planLog_partial _ _ exAtoms exQueryOK
+example : safeSegs .normal (segsSel (LogQL.planLog exCtxCluster exQuery)) = true :=
+  closed_fragments_planLog_partial _ _ exAtomsCluster exQueryOK
+-- a raw atom that is not well formed is refused: a comment opener as a column name, a quote in a label name
+example : wfExpr (.raw "a --") = false := by simp only [wfExpr]; decide +kernel
+example : wfExpr (.lit "a'b") = false := by simp only [wfExpr]; decide +kernel
+example : wfExpr (.call "x'" []) = false := by simp only [wfExpr, wfExprs, Bool.and_true]; decide +kernel
 
 end Qryn.C10
